@@ -118,6 +118,7 @@ type Interp struct {
 	raceCells         map[interface{}]*raceCell
 	onces             map[*Value]bool
 	illFormed         map[string]Term
+	vfTop             types.Type
 	utf8fixDeclared   bool
 	blobStrs          map[int]Term
 	blobByID          map[int]*Blob
